@@ -211,4 +211,10 @@ def run_shard(col, k, nshards, tier, seed):
             c = {'dialect': x['dialect'], 'sql': x['sql'], 'origin': 'corpus'}
             for rec in judge(c, col):
                 col.fail(rec, c)
+    # bounded-exhaustive: every production of the live grammar with every alternative of each of its nonterminals
+    for d in corpus.DIALECTS:
+        for label, toks in grammar.get(d).pair_sentences()[k::nshards]:
+            c = {'dialect': d, 'sql': ' '.join(toks), 'origin': 'pairs'}
+            for rec in judge(c, col):
+                col.fail(rec, c)
     hyp.explore(col, cases(), judge, N[tier], seed)
